@@ -129,6 +129,18 @@ def run(ctx):
         raise vt.HarnessError("expected 93136 valid dates, saw %s" % ctx.hist.get("valid_dates"))
     ctx.evaluations += n
     ctx.nontrivial += special
+    # ---- 1b. dates changed through their setters vs freshly built dates ----
+    rc, out, err = vt.run_exe(exe, ["setters"], timeout=600)
+    if rc != 0:
+        ctx.violation("crash-setters", {"mode": "setters"}, "driver crashed in setters mode rc=%s\n%s" % (rc, err[-1500:]))
+    for line in (out or "").splitlines():
+        if line.startswith("MISMATCH"):
+            ctx.violation("setter:" + line.split()[2], {"line": line}, "a date changed through a setter reports something else than a freshly built one: " + line)
+        elif line.startswith("SETTERS"):
+            kv = dict(x.split("=") for x in line.split()[1:])
+            ctx.evaluations += int(kv["n"])
+            ctx.nontrivial += int(kv["n"])
+            ctx.count("setter_histories", int(kv["n"]))
     # ---- 2. all 2^24 time triples ----
     rc, out, err = vt.run_exe(exe, ["times"], timeout=600)
     if rc != 0:
